@@ -1,4 +1,7 @@
+#[cfg(not(trark_rssl_verif))]
 use std::collections::{HashMap, HashSet};
+#[cfg(trark_rssl_verif)]
+use rssl_text::verif_collections::{HashMap, HashSet};
 
 use rssl_ast as ast;
 use rssl_ir as ir;
